@@ -156,7 +156,41 @@ func randJPEGSegs(rng *core.RNG, max int, big bool) []imggen.JPEGSeg {
 	var out []imggen.JPEGSeg
 	n := rng.Intn(max + 1)
 	for i := 0; i < n; i++ {
-		switch rng.Intn(10) {
+		switch rng.Intn(12) {
+		case 10: // quantisation tables in their other legal forms: 16-bit precision (Pq = 1, 129 bytes per
+			// table), several tables in one segment, 8- and 16-bit tables mixed
+			var pl []byte
+			for t := 0; t < 1+rng.Intn(3); t++ {
+				if rng.Bool() {
+					pl = append(pl, byte(0x10|t))
+					for k := 0; k < 64; k++ {
+						pl = append(pl, byte(rng.Intn(3)), byte(1+rng.Intn(255)))
+					}
+				} else {
+					pl = append(pl, byte(t))
+					for k := 0; k < 64; k++ {
+						pl = append(pl, byte(1+rng.Intn(255)))
+					}
+				}
+			}
+			out = append(out, imggen.JPEGSeg{Marker: 0xDB, Payload: pl, Name: "DQT16"})
+		case 11: // several Huffman tables in one DHT segment (class / id nibbles 0x00, 0x10, 0x01, 0x11)
+			var pl []byte
+			for t := 0; t < 1+rng.Intn(4); t++ {
+				pl = append(pl, []byte{0x00, 0x10, 0x01, 0x11}[t])
+				counts := make([]byte, 16)
+				total := 0
+				for k := range counts {
+					c := rng.Intn(3)
+					counts[k] = byte(c)
+					total += c
+				}
+				pl = append(pl, counts...)
+				for k := 0; k < total; k++ {
+					pl = append(pl, byte(k))
+				}
+			}
+			out = append(out, imggen.JPEGSeg{Marker: 0xC4, Payload: pl, Name: "DHTmulti"})
 		case 8: // a well-formed Exif block: orientation 1..8 and dimension tags that disagree with the frame header
 			out = append(out, imggen.JPEGSeg{Marker: 0xE1, Payload: append([]byte("Exif\x00\x00"), tiffExif(rng)...), Name: "APP1exif"})
 		case 9: // JFIF with non-square density and a thumbnail of its own size; Adobe APP14 transform flag
